@@ -5,7 +5,7 @@ package main
 func init() { props["c04"] = runC04 }
 
 var hostileNames = []string{
-	"a", `"q"`, "a: b", "<index>.html", "a&b", "x>y", "#h", `back\slash`, "日本語", "😀", "x\x01y", "x\x00y", "'s'", "{j}", "[l]", "null", "true", "~",
+	"a", `"q"`, "a: b", `C:\u003cache`, `x\u0026y`, "caf\ufffd.txt", "\ufffd", "<index>.html", "a&b", "x>y", "#h", `back\slash`, "日本語", "😀", "x\x01y", "x\x00y", "'s'", "{j}", "[l]", "null", "true", "~",
 	"1.5", "k=v", "a,b", "- x", "* y", " lead", "trail ", "a b", " ", "\ufeffbom", "yes", "0x1F", "2001-01-01", "|", ">", "&a", "*a", "!t", "%", "@", "`",
 	"a\tb", "\\n", "<<", "?", "a#b", "a #b", ": ", "-", "---", "...", "[", "]", "{", "}", ",",
 }
@@ -84,5 +84,25 @@ func runC04(ctx *Ctx) *Report {
 		addForest(f)
 	}
 	runCases(rep, cases, ctx.Workers, func(c Case) bool { return len(c.Tree) > 12 })
+	// the encodings with the massive option and a writer that takes its time: at return the output is
+	// complete and decodes to the same records (any root order)
+	{
+		m := NewModel()
+		defer m.Close()
+		var roots []*Tree
+		for i := 0; i < 12; i++ {
+			roots = append(roots, &Tree{Name: hostileNames[i%len(hostileNames)] + fmtInt(i), Kids: []*Tree{{Name: "k", Kids: []*Tree{{Name: hostileNames[(i*5)%len(hostileNames)]}}}, {Name: "z"}}})
+		}
+		if representable(roots, plainSpelling) {
+			doc := spell(roots, plainSpelling)
+			for s := 0; s < 3; s++ {
+				for _, op := range []string{"json", "yaml"} {
+					c := massiveCase{Kind: "massive", Op: op, Doc: hx(doc), Text: "<12 roots, hostile names, slow writer>", Sched: int64(40 + s), Fmt: fmtDefault, SlowUS: 400}
+					rep.Record(c, "massive-slow:"+op+fmtInt(s), true, runMassive(m, c))
+					rep.Count("massive-slow-writer:" + op)
+				}
+			}
+		}
+	}
 	return rep
 }
